@@ -69,10 +69,16 @@ fn registry() -> Vec<PartEntry> {
         part!("C04", uni::C04Uni),
         part!("C04", uni::C04Multi),
         part!("C05", life::C05Sched),
+        part!("C05", seq::C05Seq),
         part!("C07", life::C07CancelAll),
+        part!("C08", seq::C08Reserved),
+        part!("C10", seq::C10Lifetimes),
         part!("C13", alloc::C13Pool),
         part!("C14", alloc::C14Handles),
+        part!("C15", seq::C15Channels),
+        part!("C15", seq::C15Raw),
         part!("C16", life::C16Retry),
+        part!("C16", seq::C16Seq),
         part!("C17", life::C17Churn),
         part!("C18", containers::Standalone),
         part!("C19", alloc::C19Average),
@@ -240,7 +246,7 @@ fn main() {
             let (replays_run, replay_exit) = run_committed_replays(&id, &cfg, &reg);
             let only: Option<String> = std::env::var("VERIF_PART").ok();
             let parts: Vec<PartResult> = mine.iter().filter(|p| only.as_deref().map(|o| o == p.name).unwrap_or(true)).map(|p| (p.run)(&cfg)).collect();
-            let evidence = verif_dir().join("evidence").join(format!("{id}.json"));
+            let evidence = verif_dir().join("evidence").join(format!("{id}{}.json", std::env::var("RMV_EVIDENCE_SUFFIX").unwrap_or_default()));
             let code = driver::conclude(&cfg, parts, started, &assumptions_for(&id), &evidence, replays_run);
             std::process::exit(if replay_exit == 1 || code == 1 { 1 } else { code.max(replay_exit) });
         },
